@@ -29,7 +29,7 @@ func init() {
 		c.R.Trusted = codecTrusted
 		mcCodecCheck(c, func(v EdgeVerdict) string { return firstFlag(flagIf(!v.RT, "roundtrip"), flagIf(!v.Fast, "fastproj")) })
 		codecTraceRun(c, "rt", 12, 150, func(v CodecVerdict) bool {
-			return v.Ev == "roundtrip" || v.Ev == "load" || strings.HasPrefix(v.Sig, "marshal:error")
+			return v.Ev == "roundtrip" || v.Ev == "load" || strings.HasPrefix(v.Sig, "marshal:error") || v.Tag == "rt-history"
 		})
 	}})
 	register(&Check{ID: "C02", Level: "model_checking", Run: func(c *Ctx) {
@@ -45,14 +45,16 @@ func init() {
 	register(&Check{ID: "C04", Level: "model_checking", Run: func(c *Ctx) {
 		c.R.Trusted = codecTrusted
 		mcCodecCheck(c, func(v EdgeVerdict) string { return flagIf(v.Fresh && !v.Size, "size") })
-		codecTraceRun(c, "size", 12, 150, func(v CodecVerdict) bool { return v.Ev == "size" || v.Ev == "append" })
+		codecTraceRun(c, "size", 12, 150, func(v CodecVerdict) bool {
+			return v.Ev == "size" || (v.Ev == "append" && v.Sig != "append:nil-receiver") // nil receivers: C09
+		})
 	}})
 	register(&Check{ID: "C05", Level: "model_checking", Run: func(c *Ctx) {
 		c.R.Trusted = codecTrusted
 		// the model: DetIsPure / NonDetValid are invariants of MC_Codec (map iteration order explicit);
 		// replayed edges additionally check that the decoded message marshals to the model's bytes
 		mcCodecCheck(c, func(v EdgeVerdict) string { return flagIf(v.Fresh && !v.Enc, "detbytes") })
-		st := codecTraceRun(c, "pure", 8, 80, func(v CodecVerdict) bool { return v.Ev == "detn" })
+		st := codecTraceRun(c, "pure", 8, 80, func(v CodecVerdict) bool { return v.Ev == "detn" || v.Sig == "marshal:direct-flags" })
 		c.R.Cov["detn_events"] = st.ByEv["detn"]
 		c.R.Assumptions = append(c.R.Assumptions, "Go map iteration order is randomised per range statement; each value is marshalled 6 times for each of 5 construction histories (30 marshals), maps have up to 9 keys")
 	}})
@@ -91,7 +93,9 @@ func init() {
 		mcCodecCheck(c, func(v EdgeVerdict) string {
 			return firstFlag(flagIf(!v.Disc, "discard"), flagIf(strings.HasPrefix(v.Shape, "unknown") && (!v.Fresh || !v.Merge || !v.Enc), "unknown"))
 		})
-		codecTraceRun(c, "unknown", 10, 120, func(v CodecVerdict) bool { return v.Ev == "unmarshal" || v.Ev == "marshal" })
+		codecTraceRun(c, "unknown", 10, 120, func(v CodecVerdict) bool {
+			return v.Ev == "unmarshal" || v.Ev == "marshal" || (v.Ev == "alias_in" && v.Tag == "unknown-alias")
+		})
 		// GetUnknown / SetUnknown read and replace exactly that set (reflection model, incl. a
 		// slice held across SetUnknown)
 		mcReflectCheck(c, func(v ReflVerdict) bool {
